@@ -41,8 +41,12 @@ func zzEligibleWorld(prop string) {
 	case "or-name-in":
 		tpl.fieldShape = "or-name-in"
 	}
-	if nondet.Bool("tpl.tolerates") {
-		tpl.tolerates = zzLabelKey
+	// the taint of node0 may be tolerated — by the only toleration of its key, or by the second of two
+	switch nondet.String("tpl.tolerates", "", "k", "k-second") {
+	case "k":
+		tpl.tolerates = "k"
+	case "k-second":
+		tpl.tolerates = "k-second"
 	}
 	a := zzNodeAttr{}
 	switch nondet.String("node0.label", "", "v", "w", "present-with-empty-value") {
